@@ -428,14 +428,14 @@ MALFORMED_CLEAN = ["nosuchopcode a 1", "always", "always ab", "always ab 19z", "
                    "after nosuchclass always ab 12", "include nosuchfile.ctb", "grouping g ab 1", "emphletter nosuchclass 1",
                    "multind 1 nosuch", "noback nofor always ab 1", "numericmodechars \\x0f00",
                    "capsmodechars \\x0f01", "display ab 1", "display a 1-2", "math \\x0f02", "always \\x0f03 =", "letter \\x0f04",
-                   "letter \\x0f05 1z", "undefined", "numsign 1z", "lencapsphrase 0", "swapcc s2 ab", "comp6 ab 1", "hyphen ab 1",
+                   "letter \\x0f05 1z", "undefined", "numsign 1z", "swapcc s2 ab", "comp6 ab 1", "hyphen ab 1",
                    "exactdots ab", "locale", "uplow Aa 1", "before"]
 # rejected only after a partial effect, or accepted although an error is logged (findings of C15; each is tried in isolation)
 MALFORMED_DIRTY = [("noback pass2", "pass"), ("correct \"a\" \"b\"", "pass"), ("noback pass2 @1", "pass"), ("noback pass3 [@1 @2", "pass"), ("noback pass4 @1 @2z", "pass"),
                    ("noback correct @1 \"a\"", "pass"), ("noback pass2 {nosuchgroup @1", "pass"), ("noback pass2 %nosuchswap @1", "pass"),
                    ("noback match %[ ab - 12", "match"), ("noback match - ab ( 12", "match"), ("nofor match - ab ( 12", "match"),
                    ("base uppercase \\x0994", "base"), ("base uppercase \\x0994 ab", "base"), ("base nosuchattr", "base"),
-                   ("begmodeword nosuchmode", "modeword"),
+                   ("begmodeword nosuchmode", "modeword"), ("lencapsphrase 0", "lenphrase"), ("lenemphphrase italic 0", "lenphrase"),
                    ("grouping g1 \\x0998\\x0999 1,2", "grouping"), ("swapcd s1 ab 1,2", "swap"),
                    ("numericmodechars a\\x09ac", "modechars"), ("capsmodechars a\\x09ae", "modechars"), ("numericnocontchars a\\x09af", "modechars"),
                    ("seqdelimiter a\\x09b3", "modechars"), ("syllable", "syllable"), ("syllable ab", "syllable"), ("syllable \\x09b0 1z", "syllable"),
